@@ -206,6 +206,8 @@ def parse_model(out):
     d = {}
     for t in out.split()[1:]:
         k, v = t.split("=", 1)
+        if k in ("spec", "clean"):
+            d[k] = v; continue
         d[k] = [parse_r(x) for x in v.split(",")] if v else []
     return d
 
@@ -247,6 +249,15 @@ def run(ctx: Ctx):
                 ctx.disagree(c, {k: res[k] for k in ("T", "NP")}, model[i][:300], bad)
             else:
                 ctx.traces_validated += 1
+            # second layer: on tolerance-clean curves the code-shaped model must equal the tidy specification
+            # (running minima towards the pinch) that the C07 theorems characterise
+            if md is not None:
+                if md.get("clean") == "1":
+                    ctx.dist["spec_layer_clean"] += 1
+                    if md.get("spec") != "1":
+                        ctx.disagree(c, None, model[i][:300], "code-shaped pocket model differs from the running-minimum specification on a tolerance-clean curve")
+                else:
+                    ctx.dist["spec_layer_unclean_skipped"] += 1
 
 
 def replay(ctx: Ctx, payload: dict) -> int:
